@@ -216,6 +216,11 @@ def _truncation_counterexample(expr_txt: str, arg: str, tf: str, probe: bool = F
     return "equal" if probe else None
 
 
+def _calls_helper(e, selfn) -> bool:
+    """the expression calls a method of the object itself (a helper whose result the rule does not know)"""
+    return any(isinstance(x, ast.Call) and isinstance(x.func, ast.Attribute) and isinstance(x.func.value, ast.Name) and x.func.value.id == selfn for x in ast.walk(e))
+
+
 def r15_3(ctx: Ctx):
     """R15.3 best-first once, prefix truncation, better-set = prefix before the individual (tie with the best -> the best), nearest = argmin of Euclidean norms."""
     obs = []
@@ -235,6 +240,20 @@ def r15_3(ctx: Ctx):
         ok = t in want
         why = f"self.individuals = `{t[:110]}`; expected the best-first sort truncated to the prefix int(n * truncation_factor)"
         definite = ("sorted(" in t and "reverse=True" not in t) or "key=" in t or "[-" in t or ("sorted(" not in t and ".sort(" not in t) or "round(" in t or "ceil(" in t or "+1" in t
+        # a local list that is sorted / cut in place after it was built: the text of its definition says nothing
+        vn = v
+        hops = 0
+        mutated_local = False
+        while isinstance(vn, ast.Name) and hops < 4:
+            nm_ = vn.id
+            if any((isinstance(x, ast.Call) and isinstance(x.func, ast.Attribute) and isinstance(x.func.value, ast.Name) and x.func.value.id == nm_ and x.func.attr in ("sort", "reverse", "pop", "remove", "clear", "insert", "append", "extend")) or (isinstance(x, ast.Delete) and any(nm_ in {y.id for y in ast.walk(t_) if isinstance(y, ast.Name)} for t_ in x.targets)) or (isinstance(x, ast.Subscript) and isinstance(x.ctx, ast.Store) and isinstance(x.value, ast.Name) and x.value.id == nm_) for x in body_walk(init.node)):
+                mutated_local = True
+            ds_ = defs.get(nm_, [])
+            vn = ds_[0] if len(ds_) == 1 else None
+            hops += 1
+        if mutated_local and not ok:
+            definite = False
+            why = f"self.individuals is a local list that is sorted / truncated in place (`{t[:60]}`): cannot read the order and the cut off its definition"
         if not ok and not definite:
             # prefix length as an arithmetic expression of n and the truncation factor: compare with int(n * t) on a grid
             m_ = re.fullmatch(r"sorted\(%s,reverse=True\)\[:(.*)\]" % re.escape(arg), t)
@@ -304,11 +323,11 @@ def r15_3(ctx: Ctx):
                     st_b = OK
                 elif (tie_eq or tie_ne) and is_root_list(b) and canon(a) == prefix_t:
                     st_b, why_b = VIOLATION, "the tie rule is inverted: individuals tied with the best get the prefix, all others attach to the best"
-                elif (tie_eq or tie_ne) and is_root_list(a) and re.fullmatch(re.escape(f"{psn}.individuals[:") + r".*\]", canon(b)):
+                elif (tie_eq or tie_ne) and is_root_list(a) and re.fullmatch(re.escape(f"{psn}.individuals[:") + r".*\]", canon(b)) and not _calls_helper(b, psn):
                     st_b, why_b = VIOLATION, f"better-set `{canon(b)[:80]}` is not the prefix strictly before the individual in the best-first order"
             elif canon(bexp) == prefix_t:
                 st_b, why_b = VIOLATION, "no tie rule: an individual tied with the best has an empty better-set or attaches to an equal one"
-            elif re.fullmatch(re.escape(f"{psn}.individuals[:") + r".*\]", canon(bexp)) or canon(bexp) == f"{psn}.individuals":
+            elif (re.fullmatch(re.escape(f"{psn}.individuals[:") + r".*\]", canon(bexp)) or canon(bexp) == f"{psn}.individuals") and not _calls_helper(bexp, psn):
                 st_b, why_b = VIOLATION, f"better-set `{canon(bexp)[:80]}` is not the prefix strictly before the individual"
         obs.append(ctx.ob("R15.3", ps, calls[0] if calls else loops[0], status=st_b, detail="better-set = prefix before the individual; a tie with the best attaches to the best" if st_b == OK else f"{why_b}: does not implement 'strictly better = earlier in the best-first order, ties with the best attach to the best'", construct="better-set"))
         # the node's distance/parent come from _find_nearest_better(ind, better)
